@@ -41,8 +41,11 @@ def units(tier):
         SL("slice.terminate_broken", "x6_terminate_broken", 44),
         SL("slice.terminate_broken_vs_submit", "x6_terminate_broken", 70, params={"with_user": True}),
         SL("slice.crash_after_respawn", "x10_crash_after_respawn", 60, params={"live0": 0}),
+        SL("slice.crash_holding_mgmt_lock", "x11_crash_holding_mgmt_lock", 50),
         SL("slice.dispatch_vs_cancel", "x1_dispatch_vs_cancel", 16),
         SL("slice.feeder_error_vs_dispatch", "x2_feeder_error_vs_dispatch", 26),
+        H("C01", "lokyverif.harness.c02_broken", "check_run_loop", t, ["loky.process_executor:_ExecutorManagerThread.run"],
+          "1..4 turns of the manager loop, each a wake-up / a result / a broken pool; shutdown flag raised at turn 0..4; work left or not after each turn"),
         H("C01", "lokyverif.harness.c10_resize", "check_resize_terminates", t, ["loky.reusable_executor:_ReusablePoolExecutor._resize"], "old != new in 1..3, dead workers before/after the spawn, pool breaks meanwhile"),
         H("C01", "lokyverif.harness.c02_broken", "check_wait_table", 1200 if tier == "thorough" else 400,
           ["loky.process_executor:_ExecutorManagerThread.wait_result_broken_or_wakeup"], "readiness subset symbolic"),
